@@ -41,6 +41,10 @@ Proof.
   apply (levinson_stable_thm r (length ks) false (stepup_all ks) P ks z Hr ltac:(lia) HPD Hrun Hz).
 Qed.
 
+(* non-vacuity helper: the order-1 polynomial z + a_1 has the root -a_1 *)
+Lemma polyval_order1 (a : list F) : polyval (afun a) 1 (- nthF a O) = 0.
+Proof. unfold polyval. cbn. ring. Qed.
+
 Lemma prodk_lt1_pos (ks : list F) : (forall j, (j < length ks)%nat -> lt (nrm2 (nthF ks j)) 1) -> pos (prodk ks).
 Proof.
   induction ks as [|k ks IH]; intros H; cbn [prodk]; [apply pos_1|].
